@@ -723,44 +723,18 @@ Proof. exact C17_Trace.c17_peer_fin_refuted_shape. Qed.
 Theorem c17_peer_fin_guard_satisfiable : pf_guard_b = true.
 Proof. exact C17_Trace.c17_peer_fin_guard_satisfiable. Qed.
 
-(* (c) DEFECT D6.  First form (an MTU probe that EXPIRES after our FIN was numbered is popped and cut again; the
-   second part takes the FIN's number), repaired in /repo 4d912d4 and in the model: the former witnesses are
-   regressions - every predicate holds on the same op lists *)
+(* (c) DEFECT D6 (found by the attempt to prove c17_fin_seq_ok, confirmed on the real code, repaired in /repo
+   4d912d4 + f62adfc): an MTU probe given up after our FIN was numbered (expired, or refused with EMSGSIZE on
+   its retransmission by the new-data loop) was cut again and its second part took the FIN's sequence number -
+   an ST_DATA numbered like the FIN on the wire, or (default options) the last bytes never sent and Ready(Ok).
+   The four former witnesses (both forms, Nagle off / default options) are regressions: c17_fin_seq_ok, the new
+   step predicate c17_fin_covers_data_ok and every other predicate of C17 hold on the same op lists, and no
+   ST_DATA carries the number of an ST_FIN *)
 Theorem c17_fin_seq_regression : d6_regression_b = true.
 Proof. exact C17_Trace.c17_fin_seq_regression. Qed.
 
 Theorem c17_fin_covers_data_regression : d6_loss_regression_b = true.
 Proof. exact C17_Trace.c17_fin_covers_data_regression. Qed.
-
-(* (c) DEFECT D6, second form, NOT repaired by 4d912d4: the probe is popped by the EMSGSIZE arm of send_tx_queue
-   (path limit lowered after the probe went out; RTO rewinds last_sent_seq_nr to an earlier segment; its
-   acknowledgement re-opens the new-data loop, which re-sends the probe).  c17_fin_seq_ok is still FALSE of
-   the model (and of the real code: same datagrams) *)
-Theorem c17_fin_seq_ok_refuted :
-  exists cfg ops s0,
-    C10_Pred.vconfig_ok cfg = true /\
-    vsock_new (fixed_cc 4096) (fun _ _ => tt) cfg = Some s0 /\
-    c17_fin_seq_ok cfg (ftrace (fixed_cc 4096) s0 ops) = false.
-Proof. exact C17_Trace.c17_fin_seq_ok_refuted. Qed.
-
-(* the datagrams of that trace: DATA 101, DATA 102 (probe), FIN 103, DATA 101 (RTO), DATA 102 (528 bytes),
-   DATA 103 (463 bytes); every other predicate of C17 holds on it *)
-Theorem c17_fin_seq_refuted_shape : d6_shape_b = true.
-Proof. exact C17_Trace.c17_fin_seq_refuted_shape. Qed.
-
-(* (c) the second form with the default options loses bytes: the last 231 written bytes are never sent and the
-   poll returns Ready(Ok) after the peer acknowledged the FIN; c17_fin_seq_ok holds on that trace, the new step
-   predicate c17_fin_covers_data_ok (every poll that ends in FinWait1 leaves the send buffer fully segmented and
-   no segment unsent) is false on it *)
-Theorem c17_fin_covers_data_ok_refuted :
-  exists cfg ops s0,
-    C10_Pred.vconfig_ok cfg = true /\
-    vsock_new (fixed_cc 4096) (fun _ _ => tt) cfg = Some s0 /\
-    forallb (c17_fin_covers_data_ok cfg) (ftrace (fixed_cc 4096) s0 ops) = false.
-Proof. exact C17_Trace.c17_fin_covers_data_ok_refuted. Qed.
-
-Theorem c17_fin_covers_data_refuted_shape : d6_loss_b = true.
-Proof. exact C17_Trace.c17_fin_covers_data_refuted_shape. Qed.
 
 Print Assumptions c17_peer_fin_ok2_trace.
 Print Assumptions c17_peer_fin_guarded_trace.
@@ -772,7 +746,3 @@ Print Assumptions c17_peer_fin_refuted_shape.
 Print Assumptions c17_peer_fin_guard_satisfiable.
 Print Assumptions c17_fin_seq_regression.
 Print Assumptions c17_fin_covers_data_regression.
-Print Assumptions c17_fin_seq_ok_refuted.
-Print Assumptions c17_fin_seq_refuted_shape.
-Print Assumptions c17_fin_covers_data_ok_refuted.
-Print Assumptions c17_fin_covers_data_refuted_shape.
